@@ -6,7 +6,7 @@ cd "$(dirname "$0")"
 export PYTHONHASHSEED=0
 /venv/bin/python translator/regions.py "${VERIF_REPO:-/repo}" > /dev/null
 cd coq
-coq_makefile -f _CoqProject -o Makefile > /dev/null
+./mkproject.sh
 timeout 3400 make -k -j"$(nproc)" 2>&1 | grep -v '^COQ\|^Closed under' | tail -40 || true
 cd ../ocaml
 if [ -f ../coq/model.ml ]; then
